@@ -28,6 +28,7 @@ type MTSub struct {
 	Gap   int    `json:"gap,omitempty"`
 	Panic bool   `json:"panic,omitempty"`
 	Err   bool   `json:"err,omitempty"`
+	ErrKind int  `json:"err_kind,omitempty"` // 0 a plain error, 1 context.Canceled, 2 an error wrapping context.Canceled
 	Done  int    `json:"done,omitempty"`
 }
 
@@ -65,6 +66,9 @@ func genMT(rng *rand.Rand, tier string) *MTPlan {
 		}
 		s.Panic = rng.IntN(10) == 0 && s.Kind[:3] != "sig"
 		s.Err = rng.IntN(4) == 0
+		if s.Err {
+			s.ErrKind = rng.IntN(3)
+		}
 		s.Done = 1 + rng.IntN(3)
 		p.Subs = append(p.Subs, s)
 	}
@@ -84,9 +88,23 @@ type mtState struct {
 	negSeen string
 	probeDelay time.Duration
 	probeRan   bool
+	earlyStarted, earlyRan bool
+	earlyDelay             time.Duration
 	offDelay   time.Duration
 	finalGlobal int32
 	finalMod    int32
+}
+
+// mtError is the error a microtask function returns: an ordinary one, the context's cancellation error (what a
+// function that honours its context returns), or an error wrapping it. The blocking variants hand it back as it is.
+func mtError(k, kind int) error {
+	switch kind {
+	case 1:
+		return context.Canceled
+	case 2:
+		return fmt.Errorf("microtask %d gave up: %w", k, context.Canceled)
+	}
+	return fmt.Errorf("injected microtask error %d", k)
 }
 
 func prioOf(kind string) string { return kind[len(kind)-3:] } // igh|med|low
@@ -141,12 +159,33 @@ func execMT(p *MTPlan, rc *simkit.RunCtx) {
 				s.runML--
 			}
 			s.ended[k]++
+			if !s.earlyStarted {
+				all := true
+				for _, e := range s.ended {
+					if e == 0 {
+						all = false
+					}
+				}
+				if all {
+					// the last microtask is about to finish: a moment later another one is submitted; nothing is
+					// running or waiting any more, so it is admitted at once
+					s.earlyStarted = true
+					go func() {
+						time.Sleep(time.Millisecond)
+						t0 := simrt.Now()
+						_ = s.m.RunLowPriorityMicroTask("early-probe", 10*time.Minute, func(ctx context.Context) error {
+							s.earlyRan, s.earlyDelay = true, simrt.Now()-t0
+							return nil
+						})
+					}()
+				}
+			}
 			if sub.Panic {
 				rc.Fault("microtask-panic")
 				panic(fmt.Sprintf("injected microtask panic %d", k))
 			}
 			if sub.Err {
-				return fmt.Errorf("injected microtask error %d", k)
+				return mtError(k, sub.ErrKind)
 			}
 			return nil
 		}
@@ -274,7 +313,7 @@ func checkMT(p *MTPlan, rc *simkit.RunCtx) {
 					return
 				}
 			case sub.Err:
-				if err == nil || err.Error() != fmt.Sprintf("injected microtask error %d", k) {
+				if err == nil || err.Error() != mtError(k, sub.ErrKind).Error() {
 					rc.Fail("C15.run-result", "blocking variant did not return the function's error", fmt.Sprintf("submission %d: %v", k, err))
 					return
 				}
@@ -293,6 +332,17 @@ func checkMT(p *MTPlan, rc *simkit.RunCtx) {
 	if !s.probeRan {
 		rc.Fail("C15.probe", "a microtask submitted after all others finished never ran", "")
 		return
+	}
+	if s.earlyStarted && !s.earlyRan {
+		rc.Fail("C15.probe", "a microtask submitted right after the last one finished never ran", "")
+		return
+	}
+	if s.earlyRan && s.earlyDelay >= 500*time.Millisecond {
+		rc.Fail("C15.not-admitted", "a microtask submitted right after all others had finished was not admitted immediately", fmt.Sprintf("waited %v", s.earlyDelay))
+		return
+	}
+	if s.earlyRan {
+		rc.Probe("admitted-right-after-last-finish")
 	}
 	if s.probeDelay >= 9*time.Minute {
 		rc.Fail("C15.not-admitted", "a microtask submitted after all others finished was not admitted immediately", fmt.Sprintf("waited %v", s.probeDelay))
